@@ -1025,8 +1025,7 @@ def dict_method(I, st, ref, name):
             if isinstance(src, Ref) and st.get(src).kind == "dict":
                 d.update(st.get(src).items)
             else:
-                for kv in I.iterate(src, st):
-                    kk, vv = I.iterate(kv, st)
+                for kk, vv in _mapping_or_pairs(I, st, src):
                     d[I.hashable(kk)] = vv
         d.update(k)
         yield st, None
@@ -1392,6 +1391,32 @@ def re_method(I, st, v, name):
 
 
 # ============================================================================ builtin classes as callables
+def _mapping_or_pairs(I, st, src):
+    """dict(src) / d.update(src) for a non-dict source, CPython's rule: an object that has a `keys` attribute is read as a
+    mapping (for k in src.keys(): src[k]); anything else is iterated as key/value pairs (a wrong pair length is an error the
+    model does not fork: Unsupported).  Every call involved must have exactly one, non-raising outcome."""
+    def one(outs, what):
+        outs = list(outs)
+        if len(outs) != 1 or isinstance(outs[0][1], Exc) or outs[0][0] is not st:
+            raise Unsupported("dict(...) from a mapping-like object: %s forks or raises" % what)
+        return outs[0][1]
+
+    if isinstance(src, Ref) and st.get(src).kind == "obj":
+        outs = list(I.getattr(src, "keys", st))
+        if len(outs) == 1 and outs[0][0] is st and not isinstance(outs[0][1], Exc):
+            keys = I.iterate(one(I.call(outs[0][1], [], {}, st), "keys()"), st)
+            return [(kk, one(_m().getitem(I, st, src, kk), "__getitem__")) for kk in keys]
+        if not (len(outs) == 1 and isinstance(outs[0][1], Exc) and outs[0][1].exc.cls.name == "AttributeError"):
+            raise Unsupported("dict(...) from an object whose `keys` lookup forks")
+    out = []
+    for kv in I.iterate(src, st):
+        pair = I.iterate(kv, st)
+        if len(pair) != 2:
+            raise Unsupported("dict(...) from a sequence whose elements are not pairs")
+        out.append((pair[0], pair[1]))
+    return out
+
+
 def call_builtin_class(I, st, c, args, kwargs):
     M = _m()
     n = c.name
@@ -1463,8 +1488,7 @@ def call_builtin_class(I, st, c, args, kwargs):
             if isinstance(src, Ref) and st.get(src).kind == "dict":
                 d.update(st.get(src).items)
             else:
-                for kv in I.iterate(src, st):
-                    kk, vv = I.iterate(kv, st)
+                for kk, vv in _mapping_or_pairs(I, st, src):
                     d[I.hashable(kk)] = vv
         d.update(kwargs)
         yield st, st.alloc(DictE(d))
